@@ -1413,3 +1413,77 @@ package log
 //@   ensures[C03:line-owned-by-the-caller] bufOf(sref(result)) == 0 || !pooled[bufOf(sref(result))]
 //@   ensures[C07:one-object-one-newline] exists L Bytes :: content(result) == bstr(L) && L == bsnoc(bsnoc(binit(binit(L)), 125), 10) && bprefix(bsnoc(bnil, 123), binit(binit(L)))
 //@   ensures[C07:member-order] tprefix(old(jsonHeaderToksCtx(c, e)), tok[lastEnc]) && tkind(tok[lastEnc]) == 28 && stk[lastEnc] == stk_child_done(stk0)
+
+// ---- C03 / C05 / C13 / C19: the file appenders ----------------------------------------------------------------
+// (ghost: fdOpen/fdFlags/fdPath describe descriptors, atomPtr/atomI64 the contents of atomic cells)
+
+//@ func (*FileAppender).Start
+//@   requires c != nil
+//@   modifies c.file, fdOpen, fdFlags, fdPath
+//@   ensures[C03,C13:opened-for-append-never-truncated] result == nil ==> c.file != nil && fdOpen[c.file] && fdFlags[c.file] == os.O_WRONLY + os.O_CREATE + os.O_APPEND && fdPath[c.file] == path_join(c.FileDir, c.FileName)
+//@   ensures[C19:failure-keeps-state] result != nil ==> c.file == old(c.file)
+
+//@ func (*FileAppender).Stop
+//@   requires c != nil
+//@   modifies fdOpen[c.file]
+//@   nopanic[C05,C19]
+//@   ensures[C05:descriptor-released] c.file != nil ==> !fdOpen[c.file]
+
+//@ func (TimeRotation).Time
+//@   modifies nothing
+//@   ensures[C13:interval-start] result == time_unix(time_trunc(t, r.Interval))
+
+//@ func (TimeRotation).Format
+//@   modifies nothing
+//@   ensures[C13:name-timestamp] result == time_fmt(t, "20060102150405")
+
+//@ spec fun rfaPath(c *RollingFileAppender, t smt:S_time_Time) string = path_join(c.FileDir, c.FileName + "." + time_fmt(t, "20060102150405"))
+
+//@ func (*RollingFileAppender).createFile
+//@   requires c != nil
+//@   modifies fdOpen, fdFlags, fdPath
+//@   ensures[C13:name-and-append-mode] result2 == nil ==> result1 != nil && fresh(result1) && fdOpen[result1] && fdFlags[result1] == os.O_CREATE + os.O_WRONLY + os.O_APPEND && fdPath[result1] == path_join(c.FileDir, c.FileName + "." + formatTime)
+//@   ensures[C19:no-file-on-error] result2 != nil ==> result1 == nil
+//@   ensures[C13:path] result0 == path_join(c.FileDir, c.FileName + "." + formatTime)
+//@   ensures[C05:others-untouched] forall f ref :: isold(f) ==> fdOpen[f] == old(fdOpen[f])
+
+//@ func (*RollingFileAppender).Start
+//@   requires c != nil
+//@   modifies atomPtr[c.file], atomI64[c.currTime], fdOpen, fdFlags, fdPath, lastNow
+//@   ensures[C13:first-file] result == nil ==> atomPtr[c.file] != nil && fdOpen[atomPtr[c.file]] && fdPath[atomPtr[c.file]] == rfaPath(c, lastNow) && fdFlags[atomPtr[c.file]] == os.O_CREATE + os.O_WRONLY + os.O_APPEND && atomI64[c.currTime] == time_unix(time_trunc(lastNow, c.Rotation.Interval))
+//@   ensures[C19:failure-keeps-state] result != nil ==> atomPtr[c.file] == old(atomPtr[c.file])
+
+// (the two descriptor cells never hold the same file; whatever they hold existed before the call)
+//@ spec fun rfaCells(c *RollingFileAppender) bool = isold(atomPtr[c.file]) && isold(atomPtr[c.oldFile]) && (atomPtr[c.file] == nil || atomPtr[c.file] != atomPtr[c.oldFile])
+
+//@ func (*RollingFileAppender).rotate
+//@   requires c != nil && 0 <= c.MaxAge && c.MaxAge <= 2562047 && rfaCells(c)
+//@   let t0 = atomI64[c.currTime]
+//@   let f0 = atomPtr[c.file]
+//@   let o0 = atomPtr[c.oldFile]
+//@   modifies atomPtr[c.file], atomPtr[c.oldFile], atomI64[c.currTime], fdOpen, fdFlags, fdPath, lastNow, spawned, interfered
+//@   nopanic[C19]
+//@   ensures[C13:same-interval-nothing-changes] time_unix(time_trunc(lastNow, c.Rotation.Interval)) <= t0 ==> atomPtr[c.file] == f0 && atomPtr[c.oldFile] == o0 && atomI64[c.currTime] == t0 && spawned == old(spawned)
+//@   ensures[C13,C19:boundary-is-recorded-once] time_unix(time_trunc(lastNow, c.Rotation.Interval)) > t0 && !interfered ==> atomI64[c.currTime] == time_unix(time_trunc(lastNow, c.Rotation.Interval))
+//@   ensures[C19:failed-creation-keeps-the-current-file] time_unix(time_trunc(lastNow, c.Rotation.Interval)) > t0 && atomPtr[c.file] == f0 ==> (f0 != nil ==> fdOpen[f0] == old(fdOpen[f0]))
+//@   ensures[C13:new-file-named-by-now] atomPtr[c.file] != f0 ==> fresh(atomPtr[c.file]) && fdOpen[atomPtr[c.file]] && fdPath[atomPtr[c.file]] == rfaPath(c, lastNow) && fdFlags[atomPtr[c.file]] == os.O_CREATE + os.O_WRONLY + os.O_APPEND && atomPtr[c.oldFile] == f0
+//@   ensures[C05:previous-old-file-closed] time_unix(time_trunc(lastNow, c.Rotation.Interval)) > t0 && !interfered && o0 != nil ==> !fdOpen[o0]
+//@   ensures[C19:either-kept-or-replaced] atomPtr[c.file] == f0 || atomPtr[c.oldFile] == f0
+
+//@ func (*RollingFileAppender).Write
+//@   requires c != nil && 0 <= c.MaxAge && c.MaxAge <= 2562047 && rfaCells(c)
+//@   modifies atomPtr[c.file], atomPtr[c.oldFile], atomI64[c.currTime], fdOpen, fdFlags, fdPath, lastNow, spawned, sink, interfered
+//@   nopanic[C19]
+//@   ensures[C13,C20:one-write-to-the-current-file] atomPtr[c.file] != nil ==> sink == tsnoc(old(sink), 3, atomPtr[c.file], sref(b), len(b), content(b))
+//@   ensures[C19:no-file-no-write] atomPtr[c.file] == nil ==> sink == old(sink)
+
+//@ func (*RollingFileAppender).Append
+//@   requires c != nil && c.Layout != nil && e != nil && 0 <= c.MaxAge && c.MaxAge <= 2562047 && rfaCells(c)
+//@   modifies atomPtr[c.file], atomPtr[c.oldFile], atomI64[c.currTime], fdOpen, fdFlags, fdPath, lastNow, spawned, sink, lastBytes, interfered
+//@   ensures[C03,C13,C20:one-line] atomPtr[c.file] != nil ==> sink == tsnoc(old(sink), 3, atomPtr[c.file], sref(lastBytes), len(lastBytes), content(lastBytes))
+
+//@ func (*RollingFileAppender).Stop
+//@   requires c != nil
+//@   modifies atomPtr[c.file], atomPtr[c.oldFile], fdOpen
+//@   nopanic[C05,C19]
+//@   ensures[C05:both-descriptors-released] atomPtr[c.file] == nil && atomPtr[c.oldFile] == nil && (old(atomPtr[c.file]) != nil ==> !fdOpen[old(atomPtr[c.file])]) && (old(atomPtr[c.oldFile]) != nil ==> !fdOpen[old(atomPtr[c.oldFile])])
